@@ -18,6 +18,10 @@ pub enum Val {
     Str(String),
     /// Anything else the system returned (never generated), kept as text.
     Other(String),
+    /// DECIMAL(10,2) values as hundredths.
+    Dec(i64),
+    /// DATE values in ISO form (lexicographic order = chronological order).
+    Date(String),
 }
 
 impl Eq for Val {}
@@ -31,6 +35,8 @@ impl Ord for Val {
                 Val::F(_) => 3,
                 Val::Str(_) => 4,
                 Val::Other(_) => 5,
+                Val::Dec(_) => 6,
+                Val::Date(_) => 7,
             }
         }
         match (self, o) {
@@ -39,6 +45,8 @@ impl Ord for Val {
             (Val::F(a), Val::F(b)) => a.total_cmp(b),
             (Val::Str(a), Val::Str(b)) => a.cmp(b),
             (Val::Other(a), Val::Other(b)) => a.cmp(b),
+            (Val::Dec(a), Val::Dec(b)) => a.cmp(b),
+            (Val::Date(a), Val::Date(b)) => a.cmp(b),
             _ => rank(self).cmp(&rank(o)),
         }
     }
@@ -53,6 +61,8 @@ impl Val {
             Val::F(f) => format!("{f:?}"),
             Val::Str(s) => format!("'{}'", s.replace('\'', "''")),
             Val::Other(s) => s.clone(),
+            Val::Dec(h) => dec_text(*h),
+            Val::Date(d) => format!("DATE '{d}'"),
         }
     }
     pub fn is_null(&self) -> bool {
@@ -66,8 +76,16 @@ impl Val {
             Val::F(f) => format!("{f:?}"),
             Val::Str(s) => format!("'{s}'"),
             Val::Other(s) => format!("?{s}"),
+            Val::Dec(h) => dec_text(*h),
+            Val::Date(d) => d.clone(),
         }
     }
+}
+
+/// Text of a decimal given in hundredths, always with two fractional digits.
+pub fn dec_text(h: i64) -> String {
+    let a = h.unsigned_abs();
+    format!("{}{}.{:02}", if h < 0 { "-" } else { "" }, a / 100, a % 100)
 }
 
 pub type Row = Vec<Val>;
@@ -106,6 +124,10 @@ pub enum Ty {
     Varchar,
     Bool,
     Double,
+    SmallInt,
+    /// DECIMAL(10,2)
+    Decimal,
+    Date,
 }
 
 impl Ty {
@@ -116,6 +138,9 @@ impl Ty {
             Ty::Varchar => "VARCHAR",
             Ty::Bool => "BOOLEAN",
             Ty::Double => "DOUBLE",
+            Ty::SmallInt => "SMALLINT",
+            Ty::Decimal => "DECIMAL(10,2)",
+            Ty::Date => "DATE",
         }
     }
 }
